@@ -20,7 +20,16 @@ import (
 	"github.com/q191201771/naza/pkg/nazabytes"
 )
 
-func ParseSps(payload []byte, ctx *Context) error {
+func ParseSps(payload []byte, ctx *Context) (err error) {
+	// sps来自对端，内容可能是被截断的或者任意的。bit reader在数据恰好用完时继续读取会越界（比如最后一个bit是哥伦布编码的0），
+	// 这里兜底，转成错误返回，而不是让整个进程崩溃
+	defer func() {
+		if r := recover(); r != nil {
+			Log.Errorf("parse sps panic. r=%+v, payload=%s", r, hex.Dump(nazabytes.Prefix(payload, 128)))
+			err = nazaerrors.Wrap(base.ErrAvc)
+		}
+	}()
+
 	br := nazabits.NewBitReader(payload)
 	var sps Sps
 	if err := parseSpsBasic(&br, &sps); err != nil {
